@@ -1,9 +1,9 @@
 ---------------------------- MODULE Sx127xWire ----------------------------
 (* Register-level effect of each driver operation on the SX1276 / SX1272    *)
-(* LoRa transceivers, written from the data sheets (SX1276/77/78/79 rev 7   *)
-(* chapter 4.1 and register table 6.4, SX1272/73 rev 4 table 6.? ), the     *)
-(* SX1276 errata note (2.1, 2.3) and Semtech's reference driver SWL2001     *)
-(* (sx127x.c).                                                              *)
+(* LoRa transceivers, written from the data sheets (SX1276/77/78/79:        *)
+(* chapter 4.1, 5.4, 5.5 and the LoRa register table of chapter 6;          *)
+(* SX1272/73: the corresponding chapters), the SX1276 errata note (2.1,     *)
+(* 2.3) and Semtech's reference driver SWL2001 (sx127x.c).                  *)
 (*                                                                          *)
 (* The SX127x has no commands: a transaction is <<address|wnr, data...>>    *)
 (* with auto-incrementing address (the FIFO at address 0 does not           *)
